@@ -567,12 +567,7 @@ func c15R4(p *Prog, r *Report) {
 	}
 	var ws []wr
 	sizes := types.SizesFor("gc", "amd64")
-	for _, in := range enc.Blocks[0].Instrs {
-		if !IsCallTo(in, "encoding/binary.Write") {
-			continue
-		}
-		cc := CallOf(in)
-		v := cc.Args[2]
+	for _, v := range c15EntryWrites(enc, 6) {
 		if mi, ok := v.(*ssa.MakeInterface); ok {
 			v = mi.X
 		}
@@ -687,7 +682,9 @@ func c15R4(p *Prog, r *Report) {
 		}
 		off += w.size
 	}
-	if len(ws) != 6 || off != 16 {
+	if len(ws) == 0 {
+		r.Unk("C15.R4", "fixed header length", p.Pos(enc.Pos()), "no binary.Write of the fixed header is found at the start of the encoder (directly, through a helper that writes its parameters, or through one that writes every element of a list): the form of the encoder is not recognised")
+	} else if len(ws) != 6 || off != 16 {
 		r.Bad("C15.R4", "fixed header length", p.Pos(enc.Pos()), fmt.Sprintf("the encoder's fixed header is %d fields / %d bytes, the decoder reads 16", len(ws), off))
 	} else {
 		r.OK("C15.R4", "fixed header length", p.Pos(enc.Pos()), "6 fields, 16 bytes")
@@ -1194,4 +1191,151 @@ func sameValue(a, b ssa.Value) bool {
 	ka, oka := constInt(a)
 	kb, okb := constInt(b)
 	return oka && okb && ka == kb
+}
+
+
+// c15EntryWrites: the values an encoder writes with binary.Write before its first branch, in
+// order (at most max).  Besides direct calls it reads (a) a call of a function or closure that
+// writes every element of a variadic / slice parameter in order and nothing else (the elements
+// are those of the slice literal at the call), and (b) a call of a module helper whose own entry
+// block writes its parameters (they stand for the call's arguments).
+func c15EntryWrites(fn *ssa.Function, max int) []ssa.Value {
+	var out []ssa.Value
+	var walk func(f *ssa.Function, bind map[ssa.Value]ssa.Value, depth int)
+	resolve := func(v ssa.Value, bind map[ssa.Value]ssa.Value) ssa.Value {
+		if mi, ok := v.(*ssa.MakeInterface); ok {
+			if b, has := bind[mi.X]; has {
+				return b
+			}
+			return v
+		}
+		if b, has := bind[v]; has {
+			return b
+		}
+		return v
+	}
+	walk = func(f *ssa.Function, bind map[ssa.Value]ssa.Value, depth int) {
+		for _, in := range f.Blocks[0].Instrs {
+			if len(out) >= max {
+				return
+			}
+			if IsCallTo(in, "encoding/binary.Write") {
+				out = append(out, resolve(CallOf(in).Args[2], bind))
+				continue
+			}
+			call, ok := in.(*ssa.Call)
+			if !ok || depth >= 2 {
+				continue
+			}
+			var callee *ssa.Function
+			args := call.Call.Args
+			switch cv := call.Call.Value.(type) {
+			case *ssa.MakeClosure:
+				callee, _ = cv.Fn.(*ssa.Function)
+			case *ssa.Function:
+				callee = cv
+			}
+			if callee == nil || !isModuleFn(callee) {
+				continue
+			}
+			if k, isVar := c15VariadicWriter(callee); isVar && k < len(args) {
+				for _, e := range c15SliceElems(args[k]) {
+					out = append(out, resolve(e, bind))
+				}
+				continue
+			}
+			nb := map[ssa.Value]ssa.Value{}
+			for i, prm := range callee.Params {
+				if i < len(args) {
+					nb[prm] = resolve(args[i], bind)
+				}
+			}
+			walk(callee, nb, depth+1)
+		}
+	}
+	walk(fn, map[ssa.Value]ssa.Value{}, 0)
+	if len(out) > max {
+		out = out[:max]
+	}
+	return out
+}
+
+// c15VariadicWriter: fn holds exactly one binary.Write, inside a loop that visits every element of
+// one of fn's slice parameters in index order, and writes that element; returns the parameter's index.
+func c15VariadicWriter(fn *ssa.Function) (int, bool) {
+	var w *ssa.Call
+	n := 0
+	Instrs(fn, func(in ssa.Instruction) {
+		if IsCallTo(in, "encoding/binary.Write") {
+			n++
+			w, _ = in.(*ssa.Call)
+		}
+	})
+	if n != 1 || w == nil {
+		return 0, false
+	}
+	ld, ok := w.Call.Args[2].(*ssa.UnOp)
+	if !ok || ld.Op != token.MUL {
+		return 0, false
+	}
+	ia, ok := ld.X.(*ssa.IndexAddr)
+	if !ok {
+		return 0, false
+	}
+	prm, ok := ia.X.(*ssa.Parameter)
+	if !ok {
+		return 0, false
+	}
+	idx := stripConv(ia.Index)
+	if !c15CountsUp(idx) || !c15BoundedByLen(ia, idx, func(v ssa.Value) bool { return v == ssa.Value(prm) }) {
+		return 0, false
+	}
+	for i, q := range fn.Params {
+		if q == prm {
+			return i, true
+		}
+	}
+	return 0, false
+}
+
+// c15SliceElems: the elements of a slice literal / variadic argument list (a fresh array with one
+// store per constant index, sliced whole), in index order; nil when v is not of that form.
+func c15SliceElems(v ssa.Value) []ssa.Value {
+	sl, ok := v.(*ssa.Slice)
+	if !ok || sl.Low != nil || sl.High != nil {
+		return nil
+	}
+	arr, ok := sl.X.(*ssa.Alloc)
+	if !ok {
+		return nil
+	}
+	at, ok := arr.Type().Underlying().(*types.Pointer).Elem().Underlying().(*types.Array)
+	if !ok {
+		return nil
+	}
+	elems := make([]ssa.Value, at.Len())
+	for _, ref := range *arr.Referrers() {
+		ia, ok := ref.(*ssa.IndexAddr)
+		if !ok {
+			continue
+		}
+		k, isC := constInt(ia.Index)
+		if !isC || k < 0 || k >= at.Len() {
+			return nil
+		}
+		for _, r2 := range *ia.Referrers() {
+			if st, ok := r2.(*ssa.Store); ok && st.Addr == ssa.Value(ia) {
+				if elems[k] != nil {
+					return nil
+				}
+				elems[k] = st.Val
+			}
+		}
+	}
+	for _, e := range elems {
+		if e == nil {
+			return nil
+		}
+	}
+	return elems
 }
